@@ -416,6 +416,24 @@ func genConcSched(r *rand.Rand, i int) Scenario {
 	for k := 0; k < 3; k++ {
 		sc.Ops = append(sc.Ops, Op{Op: "stored", Seg: seg, N: pick(), Nested: &Op{Op: "stored", Seg: seg, N: pick()}})
 	}
+	// reads of the segment issued from inside doc-value callbacks - of the first visits of fresh readers on a
+	// fresh segment object (no dictionary cached yet): a dictionary, another reader's first visit, stored fields
+	sc.Ops = append(sc.Ops, Op{Op: "persist", Seg: 1, File: 8}, Op{Op: "load", File: 8, Seg: 8, Backing: []string{"mem", "file"}[i%2]})
+	for k := 0; k < 4; k++ {
+		rd := 40 + 2*k
+		sc.Ops = append(sc.Ops, Op{Op: "dv_open", Seg: 8, R: rd, Fields: u}, Op{Op: "dv_open", Seg: 8, R: rd + 1, Fields: u})
+		f := u[r.Intn(len(u))]
+		nested := []Op{{Op: "dict", Seg: 8, Field: f}, {Op: "dv_visit", R: rd + 1, N: r.Intn(n)},
+			{Op: "contains", Seg: 8, Field: f, Term: B([]byte("x"))}, {Op: "stored", Seg: 8, N: r.Intn(n)}}[(k+i)%4]
+		for v := 0; v < 3; v++ {
+			o := Op{Op: "dv_visit", R: rd, N: r.Intn(n)}
+			if v < 2 {
+				nn := nested
+				o.Nested = &nn
+			}
+			sc.Ops = append(sc.Ops, o)
+		}
+	}
 	return sc
 }
 
@@ -757,7 +775,13 @@ func genFaultMerge(r *rand.Rand, i int) Scenario {
 		in = []int{2, 3}
 		drops[0], drops[1] = drops[1], drops[0]
 	}
-	sc.Ops = append(sc.Ops, Op{Op: "fail_once", Seg: 3, N: i % 16},
+	if i%4 == 3 {
+		// every read of the merge as failure point: the undisturbed merge first (checked like any merge), then the sweep
+		sc.Ops = append(sc.Ops, Op{Op: "merge", File: 11, In: in, Drops: drops, Mode: 0, Buf: 4096}, Op{Op: "load", File: 11, Seg: 11, Backing: "mem"},
+			Op{Op: "dict", Seg: 11, Field: "v"}, Op{Op: "dict", Seg: 11, Field: "_id"},
+			Op{Op: "merge_fsweep", File: 11, Seg: 3, In: in, Drops: drops, Mode: 0, Buf: 4096, Stop: 1 + r.Intn(3), N: r.Intn(3)})
+	}
+	sc.Ops = append(sc.Ops, Op{Op: "fail_once", Seg: 3, N: []int{i % 16, 16 + r.Intn(700)}[i%2]},
 		Op{Op: "merge", File: 10, In: in, Drops: drops, Mode: 0, Buf: 4096}, Op{Op: "load", File: 10, Seg: 10, Backing: "mem"})
 	total := n + len(b)
 	for _, d := range []int{0, 1, 126, 127, 128, 129, 130, 200, n - 1, n, total - 2, total - 1, total} {
@@ -765,8 +789,83 @@ func genFaultMerge(r *rand.Rand, i int) Scenario {
 			sc.Ops = append(sc.Ops, Op{Op: "stored", Seg: 10, N: d})
 		}
 	}
-	sc.Ops = append(sc.Ops, Op{Op: "dict", Seg: 10, Field: "v"}, Op{Op: "dv_open", Seg: 10, R: 1, Fields: []string{"v"}}, Op{Op: "dv_visit", R: 1, N: 129}, Op{Op: "dv_visit", R: 1, N: 0},
+	sc.Ops = append(sc.Ops, Op{Op: "dict", Seg: 10, Field: "v"}, Op{Op: "dict", Seg: 10, Field: "_id"}, Op{Op: "dv_open", Seg: 10, R: 1, Fields: []string{"v"}}, Op{Op: "dv_visit", R: 1, N: 129}, Op{Op: "dv_visit", R: 1, N: 0},
 		// the input afterwards (the failure was transient): still the segment it was
 		Op{Op: "stored", Seg: 3, N: 128}, Op{Op: "stored", Seg: 3, N: 0}, Op{Op: "dict", Seg: 3, Field: "v"})
+	return sc
+}
+
+// pool_wrap: a recycled builder whose LIFETIME document count passes 65536 (a 16-bit boundary) inside a later batch:
+// builds of 65535-j empty documents (one build, or 40000 + the rest), then a small batch whose document j is the
+// 65536th document the builder has ever seen and introduces a field of its own; bytes = those of a cold build (C14)
+func genPoolWrap(r *rand.Rand, i int) Scenario {
+	j := i % 3
+	before := 65535 - j
+	if (i/6)%2 == 1 {
+		before += 65536 // the second lap
+	}
+	var pre []Batch
+	if (i/3)%2 == 0 {
+		pre = []Batch{make(Batch, 40000), make(Batch, before-40000)}
+	} else {
+		pre = []Batch{make(Batch, before)}
+	}
+	for _, b := range pre {
+		for d := range b {
+			b[d] = Doc{}
+		}
+	}
+	nc := 3 + r.Intn(3)
+	c := make(Batch, nc)
+	u := []string{"_id"}
+	for d := 0; d < nc; d++ {
+		id := []byte(fmt.Sprintf("w%d", d))
+		f := fmt.Sprintf("f%d", d)
+		u = append(u, f)
+		c[d] = Doc{{Name: "_id", Len: 1, Stored: true, Value: B(id), Terms: []TermOcc{{Term: B(id), Freq: 1, Locs: []Loc{}}}},
+			{Name: f, Len: 1 + d, DV: d%2 == 0, Value: Bytes{}, Terms: []TermOcc{{Term: B([]byte("t")), Freq: 1 + d, Locs: []Loc{}}}}}
+	}
+	sc := Scenario{Name: fmt.Sprintf("pool_wrap-%d", i), NormKind: "code", Universe: u, Batches: append(append([]Batch{}, pre...), c), Tags: []string{"pool_wrap"}}
+	ci := len(pre)
+	sc.Ops = append(sc.Ops, Op{Op: "build", Seg: 1, Batch: ci, Mode: 0, Cold: true}, Op{Op: "build", Seg: 2, Batch: 0, Mode: 0, Cold: true})
+	for k := 1; k < len(pre); k++ {
+		sc.Ops = append(sc.Ops, Op{Op: "build", Seg: 2 + k, Batch: k, Mode: 0})
+	}
+	sc.Ops = append(sc.Ops, Op{Op: "build", Seg: 10, Batch: ci, Mode: 0}, Op{Op: "build", Seg: 11, Batch: ci, Mode: 0})
+	for _, f := range u {
+		sc.Ops = append(sc.Ops, Op{Op: "stats", Seg: 10, Field: f})
+	}
+	return sc
+}
+
+// big_dv: one doc-value chunk of more than 16 MiB - some 420 documents whose single term in field "v" is a run of
+// 40 000+ bytes (each its own length) - read back on the built, the loaded and a merged segment (C07, C01, C04)
+func genBigDv(r *rand.Rand, i int) Scenario {
+	n := 420 + r.Intn(40)
+	b := make(Batch, n)
+	term := func(d int) Bytes {
+		t := make(Bytes, 41000+d)
+		for k := range t {
+			t[k] = 'a'
+		}
+		return t
+	}
+	for d := 0; d < n; d++ {
+		id := []byte(fmt.Sprintf("v%03d", d))
+		b[d] = Doc{{Name: "_id", Len: 1, Stored: true, Value: B(id), Terms: []TermOcc{{Term: B(id), Freq: 1, Locs: []Loc{}}}},
+			{Name: "v", Len: 1, DV: true, Value: Bytes{}, Terms: []TermOcc{{Term: term(d), Freq: 1, Locs: []Loc{}}}}}
+	}
+	sc := Scenario{Name: fmt.Sprintf("big_dv-%d", i), NormKind: "code", Universe: []string{"_id", "v"}, Batches: []Batch{b}, Tags: []string{"big_dv"}}
+	drop := r.Intn(n)
+	sc.Ops = append(sc.Ops, Op{Op: "build", Seg: 1, Batch: 0, Mode: 0}, Op{Op: "persist", Seg: 1, File: 1},
+		Op{Op: "load", File: 1, Seg: 2, Backing: []string{"mem", "file"}[i%2]},
+		Op{Op: "merge", File: 2, In: []int{2}, Drops: []DropSpec{{Kind: "set", Docs: []int{drop}}}, Mode: 0, Buf: 4096}, Op{Op: "load", File: 2, Seg: 3, Backing: "mem"})
+	for _, seg := range []int{1, 2, 3} {
+		sc.Ops = append(sc.Ops, Op{Op: "dv_open", Seg: seg, R: seg, Fields: []string{"v"}})
+		for _, d := range []int{0, 1, n / 2, n - 2} {
+			sc.Ops = append(sc.Ops, Op{Op: "dv_visit", R: seg, N: d})
+		}
+		sc.Ops = append(sc.Ops, Op{Op: "contains", Seg: seg, Field: "v", Term: term(n / 2)}, Op{Op: "contains", Seg: seg, Field: "v", Term: term(n + 5)})
+	}
 	return sc
 }
